@@ -73,11 +73,19 @@ def gen(seed, n):
         cache_if = rng.random() < 0.3
         inv_on = rng.random() < 0.3
         real_result = ret[3]
-        if i >= n - len(UNRECOGNISED_RETS):
-            ret = UNRECOGNISED_RETS[i - (n - len(UNRECOGNISED_RETS))]
+        tail = n - i   # the last four functions are fixed: two plain ones (C03's configuration), two F7 witnesses
+        if tail <= 2:
+            ret = UNRECOGNISED_RETS[2 - tail]
             real_result = True
             cache_if = False; inv_on = False; is_async = (i % 2 == 1); scope = None; thread_scope = False
             limit = None; maxmem = None; ttl = None
+        elif tail <= 4:
+            # plain configuration: no limit / ttl / max_memory / predicates, not a Result; one async, one sync global
+            ret = RETS[2] if tail == 4 else RETS[1]
+            real_result = False
+            cache_if = False; inv_on = False; is_async = (tail == 4); scope = None; thread_scope = False
+            limit = None; maxmem = None; ttl = None; policy = None; fw = None
+            sig = SIGS[1]
         fns.append(dict(i=i, real_result=real_result, is_async=is_async, policy=policy, limit=limit, maxmem=maxmem, ttl=ttl, fw=fw, scope=scope,
                         sig=sig, ret=ret, name=custom_name, tags=tags, events=events, deps=deps, cache_if=cache_if,
                         inv_on=inv_on, thread_scope=thread_scope))
